@@ -3,6 +3,7 @@ import Model.Layout
 import Model.PaginateSpec
 import Proofs.EncodeLift
 import Proofs.EncodePages
+import Proofs.EncodeOwnWidth
 import Props.C02enc
 import Props.C03enc
 import Props.C04
@@ -22,6 +23,12 @@ accepted document (`plan measure d = .ok pl`, `Proofs/EncodeLift.lean`)
 * `C04enc_rowIn`        what the row inputs are, on the document: the data lines are the encoder's `dataLines` of the
                         displayed cells of the row, the keys are the `str()` of the page_by / subline_by cells, and for a
                         row that starts a group the heading rows are `Model.Encode.headingRows` of the group's values;
+* `C04enc_own_width`    the data lines of a frame row, cell by cell: the displayed cell at position `j` counts
+                        `max(1, int(width / (cum[j] − cum[j−1])) + 1)` lines, its `str()` measured at the font and size the
+                        processed attributes hold at (row, `j`) — every displayed column against ITS OWN width, font and size,
+                        whichever columns left the table — and the row's data lines are the largest of these (and 1);
+* `C04enc_columns_out`  which columns leave the table: the subline_by columns always, the page_by columns unless
+                        `new_page` with `pageby_row = "column"` (then they stay and are measured like any other column);
 * `C04enc_meta`         the three fields `_assign_pages` reads for row `i`: group start = `str()` key differs from the
                         previous row's (`keyChange`), total = data lines + heading rows of the groups it starts;
 * `C04enc_rendered_on`  `.data i` is rendered on page `pageNums[i]` and on no other page (with `C02enc`);
@@ -41,6 +48,7 @@ open Model.Rtf Model.Emit Model.Encode Model.Broadcast Model.Layout Model.Pagina
 open Proofs.EncodeLift Proofs.Paginate
 open Proofs.EncodePages (strKey keyChange rowIn rowIns RowInFacts takeRows)
 open Proofs.PaginateGroups (mkRow)
+open Proofs.EncodeOwnWidth (CellLines ownWidth)
 open Props.C02 (dataIdx)
 open Props.C03enc (additionalDoc)
 
@@ -111,6 +119,34 @@ theorem C04enc_keys (measure : Measure) (d : Doc) (pl : Plan) (hp : plan measure
     (rowIns pl.ld).map (·.skey) = d.rows.map (strKey d d.body.sublineByL) := by
   obtain ⟨hprep, _, hld, _⟩ := plan_ok hp
   exact Proofs.EncodePages.rowIns_pkeys (prepare_dispRows_length hprep) hld
+
+/-- **every displayed column is measured against its own width, font and size**: with `cells` the displayed cells of
+frame row `i` (the row without the removed columns) and `cum` the cumulative widths of the displayed columns, the cell at
+displayed position `j` counts `linesOf w (cum[j] − cum[j−1])` lines (`CellLines`: `w` the width of its `str()` at the font
+and size of processed attribute column `j`); the data lines of the row are at least that for every displayed cell, and they
+are 1 or exactly the count of one displayed cell — so they are the maximum, and no other column's width enters -/
+theorem C04enc_own_width (measure : Measure) (d : Doc) (pl : Plan) (hp : plan measure d = .ok pl) (i : Nat)
+    (ri : RowIn (List String)) (hri : (rowIns pl.ld)[i]? = some ri) :
+    ∃ cells, pl.p.dispRows[i]? = some cells ∧
+      (∀ (j : Nat) (cell : Option Str) (c : Rat), cells[j]? = some cell → pl.p.cum[j]? = some c →
+        ∃ l, CellLines measure pl.p.attrs i j cell (ownWidth pl.p.cum 0 j c) l ∧ l ≤ ri.dataRows) ∧
+      (ri.dataRows = 1 ∨ ∃ (j : Nat) (cell : Option Str) (c : Rat), cells[j]? = some cell ∧ pl.p.cum[j]? = some c ∧
+        CellLines measure pl.p.attrs i j cell (ownWidth pl.p.cum 0 j c) ri.dataRows) := by
+  obtain ⟨_, cells, nr, _, hc, hdl, _⟩ := (C04enc_rowIn measure d pl hp i ri hri).lines
+  refine ⟨cells, hc, ?_, ?_⟩
+  · intro j cell c hj hw
+    have h := Proofs.EncodeOwnWidth.dataLines_own_width cells pl.p.cum 0 0 (1, false) _ hdl j cell c hj hw
+    simpa only [Nat.zero_add] using h
+  · have h := Proofs.EncodeOwnWidth.dataLines_attained cells pl.p.cum 0 0 (1, false) _ hdl
+    simpa only [Nat.zero_add] using h
+
+/-- **which columns leave the table**: the subline_by columns always; the page_by columns unless `new_page` is set and
+`pageby_row` is `"column"` — then they stay in the table and `C04enc_own_width` measures them like every other column -/
+theorem C04enc_columns_out (b : Body) :
+    removedNames b =
+      b.sublineByL ++ (if b.newPage = true ∧ b.pagebyColumn = true then [] else b.pageByL) := by
+  unfold removedNames Body.pageByRemoved Body.pageByL
+  cases b.pageBy <;> cases b.newPage <;> cases b.pagebyColumn <;> simp
 
 theorem C04enc_meta_length (measure : Measure) (d : Doc) (pl : Plan) (hp : plan measure d = .ok pl) :
     (metaDoc d pl).length = d.rows.length := by
@@ -477,5 +513,38 @@ example :
     (match plan exMeasure (takeRows exDocNP 5) with
      | .ok pl => pl.ld.pageNums == [1, 1, 1, 1, 2]
      | .error _ => false) = true := by decide +kernel
+
+open Props.C01enc in
+/-- two columns `g` (page_by, `new_page`, `pageby_row = "column"`: it STAYS in the table) and `t`, relative widths
+`wg : wt` of a table 6.25 in wide, ten rows of one group whose `t` texts are 3 in wide and whose `g` texts 0.1 in;
+`nrow = 12`, one column-header row reserved -/
+def exDocKept (wg wt : Rat) : Doc :=
+  { exDoc [wg, wt] with
+    cols := ["g".toList, "t".toList],
+    rows := List.replicate 10 [some "A".toList, some "T".toList],
+    page := { exPage with nrow := 12 }, title := none, footnote := none, source := none,
+    headers := [some { text := some ["G".toList, "T".toList], colRelWidth := none, attrs := exTbl }],
+    body := { (exDoc [wg, wt]).body with pageBy := some ["g".toList], newPage := true, pagebyColumn := true } }
+
+/-- `T` is 3 in wide, everything else 0.1 in -/
+def exMeasureKept : Measure := fun s _ _ => if s == "T".toList then some 3 else some (1 / 10)
+
+open Props.C01enc in
+/-- the kept page_by column does not shift the widths: with `g : t = 1 : 4` the `t` column is 5 in wide and a 3 in text is
+ONE line (against the 1.25 in of its left neighbour it would be three) — all ten rows and the heading row of the group
+(11 lines) fit the 11 available lines, one page; with `g : t = 2 : 1` the `t` column is 2.08 in wide and the same text
+is TWO lines (against its neighbour's 4.17 in it would be one) — the heading row and five such rows fill the 11 lines of
+page 1, the other five rows stand on page 2 -/
+example :
+    (match plan exMeasureKept (exDocKept 1 4) with
+     | .ok pl => pl.p.removed == [] && pl.p.cum == [5 / 4, 25 / 4] &&
+         (rowIns pl.ld).map (·.dataRows) == List.replicate 10 1 && pl.ld.pageNums == List.replicate 10 1
+     | .error _ => false) = true ∧
+    (match plan exMeasureKept (exDocKept 2 1) with
+     | .ok pl => pl.p.removed == [] && pl.p.cum == [25 / 6, 25 / 4] &&
+         (rowIns pl.ld).map (·.dataRows) == List.replicate 10 2 &&
+         pl.ld.pageNums == [1, 1, 1, 1, 1, 2, 2, 2, 2, 2]
+     | .error _ => false) = true := by
+  refine ⟨by decide +kernel, by decide +kernel⟩
 
 end Props.C04enc
